@@ -186,6 +186,8 @@ class Child:
         api.PyThreadState_Next.argtypes = [ctypes.c_void_p]
         api.PyThreadState_Get.restype = ctypes.c_void_p
         api.PyGILState_Check.restype = ctypes.c_int
+        api.PyThreadState_GetID.restype = ctypes.c_uint64
+        api.PyThreadState_GetID.argtypes = [ctypes.c_void_p]
         self.api = api
         self.interp = api.PyInterpreterState_Main()
         mod = __import__("_%s_api" % TAG)
@@ -205,7 +207,7 @@ class Child:
         h.cf_set_cb(0, int(self.ffi2.cast("intptr_t", self.cbk)))
         h.cf_set_cb(1, int(self.ffi.cast("intptr_t", self.ffi.addressof(self.lib, "cf_extpy"))))
         self.tl = threading.local()
-        self.python_ts = {api.PyThreadState_Get()}     # thread states that belong to Python threads
+        self.python_ts = {self.cur_id()}     # thread states that belong to Python threads
         self.progress = open(progress_path, "w")
         self.events = None
         self.slot_of = {}
@@ -217,10 +219,17 @@ class Child:
         self.outer = {}
 
     # ---- observation
+    # A thread state is identified by PyThreadState_GetID() (unique for the life of the interpreter),
+    # not by its address: CPython reuses the memory of a deleted thread state for the next one, so
+    # an address observed for a thread that has since exited can legitimately reappear as the
+    # thread state of a new thread.
+    def cur_id(self):
+        return self.api.PyThreadState_GetID(self.api.PyThreadState_Get())
+
     def tstates(self):
         out, p = [], self.api.PyInterpreterState_ThreadHead(self.interp)
         while p:
-            out.append(p)
+            out.append(self.api.PyThreadState_GetID(p))
             p = self.api.PyThreadState_Next(p)
         return out
 
@@ -237,7 +246,7 @@ class Child:
             h, api = self.h, self.api
             slot = h.cf_cur_slot()
             f = self.thread_of[slot]
-            tok = api.PyThreadState_Get()
+            tok = self.cur_id()
             seen = getattr(self.tl, "v", None)
             if x >= NEST:
                 # the nested callback: same thread state, same thread-local data, GIL held
@@ -265,7 +274,7 @@ class Child:
             if n % 2 == 0:
                 self.outer[f] = tok
                 inner = self.lib.cf_nested(n // 2, NEST + v)
-                if inner != 1 or api.PyThreadState_Get() != tok or api.PyGILState_Check() != 1:
+                if inner != 1 or self.cur_id() != tok or api.PyGILState_Check() != 1:
                     e["ok"] = False        # verdict clause "valid"
             e2 = {"ev": "SetLocal", "f": f, "v": v}
             e3 = {"ev": "CbExit", "f": f, "live": None}
@@ -363,7 +372,7 @@ class Child:
         elif what == "thread":
             # a Python thread comes and goes (its own thread state is Python's business)
             def body():
-                self.python_ts.add(self.api.PyThreadState_Get())
+                self.python_ts.add(self.cur_id())
                 x = [i for i in range(100)]
             th = threading.Thread(target=body)
             th.start()
